@@ -11,5 +11,6 @@ GNext == \E r \in Rows :
             \/ Search(r) /\ hist' = hist
             \/ Lock(r) /\ hist' = Append(hist, <<r, "lock">>)
 GSpec == GInit /\ [][GNext]_gvars
-Emit == Done => PrintT(ToJson([ent |-> SetToSeq(Ent), hist |-> hist, piv |-> piv]))
+Emit == Done => PrintT(ToJson([ent |-> SetToSeq(Ent), cand |-> SetToSeq(CandEnt), hist |-> hist, piv |-> piv,
+                                m |-> Cardinality(Rows), n |-> Cardinality(Cols)]))
 =============================================================================
